@@ -114,6 +114,9 @@ pub enum LaneCtl {
     FlushSyncs,
     Stall(bool),
     Fail(FailHow),
+    /// Map lane: emit an update (`value` given) or a remove whose key bytes are not valid UTF-8. No Recon
+    /// text can be such a key, so the lane's own map (the reference for the replicas) is left as it is.
+    MapBadKey { key: Bytes, value: Option<String> },
 }
 
 #[derive(Clone, Debug)]
@@ -131,6 +134,8 @@ pub enum Emitted {
     Corrupt,
     Truncated,
     Closed,
+    /// A standard map event (update when `value` is given, else remove) whose key is not valid UTF-8.
+    BadKey { key: Bytes, value: Option<String> },
 }
 
 #[derive(Clone, Debug)]
@@ -288,6 +293,8 @@ impl Lane {
             (Wr::Map(w), Emitted::SyncEv(id, Payload::Map(op))) => w.send(LaneResponse::SyncEvent(id, raw_op(op))).await,
             (Wr::Map(w), Emitted::Synced(id)) => w.send(LaneResponse::<MapOperation<Bytes, Bytes>>::Synced(id)).await,
             (Wr::Map(w), Emitted::Initialized) => w.send(LaneResponse::<MapOperation<Bytes, Bytes>>::Initialized).await,
+            (Wr::Map(w), Emitted::BadKey { key, value: Some(v) }) => w.send(LaneResponse::StandardEvent(MapOperation::Update { key, value: Bytes::from(v.into_bytes()) })).await,
+            (Wr::Map(w), Emitted::BadKey { key, value: None }) => w.send(LaneResponse::StandardEvent(MapOperation::<Bytes, Bytes>::Remove { key })).await,
             _ => Ok(()),
         };
         let mut g = self.rec.lock();
@@ -505,6 +512,11 @@ impl Lane {
             }
             LaneCtl::Stall(s) => self.stalled = s,
             LaneCtl::Fail(how) => self.fail(how).await,
+            LaneCtl::MapBadKey { key, value } => {
+                if self.spec.kind == LK::Map && !self.failed() {
+                    self.write_frame(Emitted::BadKey { key, value }).await;
+                }
+            }
         }
         self.after_input().await;
     }
